@@ -8,24 +8,23 @@ HERE = os.path.dirname(os.path.dirname(os.path.abspath(__file__)))
 
 
 def run_seed(args):
+    sys.path.insert(0, HERE)
+    from sa import scratch
     seed, props = args
     patch = os.path.join(HERE, SEEDDIR, seed, "patch.diff")
-    d = tempfile.mkdtemp(prefix="seedm-")
-    wt = os.path.join(d, "repo")
     res = {}
     try:
-        subprocess.run(["git", "-C", "/repo", "worktree", "add", "--detach", wt, "HEAD", "-q"], check=True, capture_output=True)
-        r = subprocess.run(["git", "-C", wt, "apply", "-3", "--whitespace=nowarn", patch], capture_output=True, text=True)
-        if r.returncode != 0:
-            return seed, {"_apply": "FAILED: " + r.stderr[-200:]}
+        d, wt = scratch.make(patch)
+    except Exception as e:
+        return seed, {"_apply": "FAILED: %s" % e}
+    try:
         for p in props:
             env = dict(os.environ, REPO=wt, VERIF_WORK=os.path.join(d, "work"), VERIF_EVIDENCE_DIR=os.path.join(d, "ev"))
             r = subprocess.run([os.path.join(HERE, "check"), p], capture_output=True, text=True, env=env, cwd=HERE)
             rules = sorted({l.split(" at ")[0].replace("  rule ", "").strip() for l in r.stdout.splitlines() if l.startswith("  rule ")})
             res[p] = {"rc": r.returncode, "rules": rules, "err": r.stderr[-300:] if r.returncode == 2 else ""}
     finally:
-        subprocess.run(["git", "-C", "/repo", "worktree", "remove", "--force", wt], capture_output=True)
-        shutil.rmtree(d, ignore_errors=True)
+        scratch.remove(d)
     return seed, res
 
 
